@@ -19,6 +19,7 @@
 package didx509
 
 import (
+	"bytes"
 	"crypto/x509"
 	"errors"
 	"fmt"
@@ -27,6 +28,7 @@ import (
 	"github.com/nuts-foundation/nuts-node/pki"
 	"github.com/nuts-foundation/nuts-node/vdr/resolver"
 	"strings"
+	"time"
 )
 
 const (
@@ -51,6 +53,9 @@ var (
 
 	// ErrNoCertsInHeaders indicates that no x5t or x5t#S256 header was found in the provided metadata.
 	ErrNoCertsInHeaders = errors.New("no x5t or x5t#S256 header found")
+
+	// ErrCertificateChainInvalid indicates that the validation certificate does not chain up to the certificate pinned by the DID.
+	ErrCertificateChainInvalid = errors.New("x5c certificate chain does not validate up to the certificate referenced by the DID")
 
 	// ErrNoMatchingHeaderCredentials indicates that the x5t#S256 header does not match the certificate from the x5t headers.
 	ErrNoMatchingHeaderCredentials = errors.New("x5t#S256 header does not match the certificate from the x5t headers")
@@ -106,12 +111,22 @@ func (r Resolver) Resolve(id did.DID, metadata *resolver.ResolveMetadata) (*did.
 	if err != nil {
 		return nil, nil, err
 	}
-	_, err = findCertificateByHash(chain, ref.RootCertRef, ref.Method)
+	pinnedCert, err := findCertificateByHash(chain, ref.RootCertRef, ref.Method)
 	if err != nil {
 		return nil, nil, err
 	}
 	validationCert, err := findValidationCertificate(metadata, chain)
 	if err != nil {
+		return nil, nil, err
+	}
+	// The chain comes from the (attacker-supplied) x5c header: the validation certificate must chain, by valid signatures
+	// and within the validity periods, up to the certificate the DID pins. Without this anyone could present a self-made
+	// certificate next to the pinned CA certificate.
+	validationTime := time.Now()
+	if metadata.ResolveTime != nil {
+		validationTime = *metadata.ResolveTime
+	}
+	if err = verifyPathToPinnedCertificate(chain, pinnedCert, validationCert, validationTime); err != nil {
 		return nil, nil, err
 	}
 
@@ -129,6 +144,37 @@ func (r Resolver) Resolve(id did.DID, metadata *resolver.ResolveMetadata) (*did.
 		return nil, nil, err
 	}
 	return document, &resolver.DocumentMetadata{}, err
+}
+
+// verifyPathToPinnedCertificate walks from the validation certificate up to the certificate pinned by the DID, using only
+// certificates from the given chain. For every step the issuer name must equal the parent's subject name and the
+// signature must verify with the parent's public key. Every certificate on the path must be valid at validationTime.
+// Note: it does not check the CA basic constraints / key usage of the issuing certificates.
+func verifyPathToPinnedCertificate(chain []*x509.Certificate, pinnedCert *x509.Certificate, validationCert *x509.Certificate, validationTime time.Time) error {
+	current := validationCert
+	for depth := 0; depth <= len(chain); depth++ {
+		if validationTime.Before(current.NotBefore) || validationTime.After(current.NotAfter) {
+			return fmt.Errorf("%w: certificate is expired or not yet valid (subject=%s, S/N=%s)", ErrCertificateChainInvalid, current.Subject.String(), current.SerialNumber.String())
+		}
+		if current.Equal(pinnedCert) {
+			return nil
+		}
+		var parent *x509.Certificate
+		for _, candidate := range chain {
+			if candidate.Equal(current) || !bytes.Equal(candidate.RawSubject, current.RawIssuer) {
+				continue
+			}
+			if candidate.CheckSignature(current.SignatureAlgorithm, current.RawTBSCertificate, current.Signature) == nil {
+				parent = candidate
+				break
+			}
+		}
+		if parent == nil {
+			return fmt.Errorf("%w: no certificate in the chain issued the certificate (subject=%s, S/N=%s)", ErrCertificateChainInvalid, current.Subject.String(), current.SerialNumber.String())
+		}
+		current = parent
+	}
+	return fmt.Errorf("%w: path too long", ErrCertificateChainInvalid)
 }
 
 // findValidationCertificate retrieves the validation certificate from the given chain based on metadata-provided thumbprints.
